@@ -7,6 +7,7 @@ strings and containers, nothing imported from the repository) on a *model* objec
 (two equations with known hook signatures, a context with one vector, ...), and the rule inspects the text that comes out.
 """
 import ast
+import textwrap
 
 from . import absint as A, eqindex as EI, model as M
 from .core import AnalysisError
@@ -22,8 +23,10 @@ def mock(**attrs):
 
 def func(text, rel='<model>'):
     """FuncRef for a function given as source text (hook signatures of model equations)"""
-    node = ast.parse(text.strip()).body[0]
-    return A.FuncRef(rel, node)
+    node = ast.parse(textwrap.dedent(text).strip()).body[0]
+    f = A.FuncRef(rel, node)
+    f.source_lines = text.strip('\n').splitlines(True)
+    return f
 
 
 def _getfullargspec(interp, args, kwargs, node, env):
@@ -39,6 +42,27 @@ def _dedent(interp, args, kwargs, node, env):
     return textwrap.dedent(args[0]) if isinstance(args[0], str) else A.Opaque('dedent')
 
 
+def _getsourcelines(interp, args, kwargs, node, env):
+    f = args[0]
+    if isinstance(f, A.FuncRef) and getattr(f, 'source_lines', None):
+        return (list(f.source_lines), 1)
+    raise A.Unsupported('getsourcelines of %s' % A.key_of(f))
+
+
+def _get_func_definition(interp, args, kwargs, node, env):
+    """model of compyle's helper: (definition line(s) up to the one ending in ':', the remaining lines)"""
+    lines = args[0]
+    if not isinstance(lines, list) or not all(isinstance(l, str) for l in lines):
+        raise A.Unsupported('get_func_definition of non-literal lines')
+    for i, l in enumerate(lines):
+        if l.rstrip().endswith(':'):
+            return (''.join(lines[:i + 1]), lines[i + 1:])
+    raise A.Unsupported('no definition line')
+
+
+A.EXTERNAL_CALLS['inspect.getsourcelines'] = _getsourcelines
+A.EXTERNAL_CALLS['compyle.api.get_func_definition'] = _get_func_definition
+A.EXTERNAL_CALLS['compyle.cython_generator.get_func_definition'] = _get_func_definition
 A.EXTERNAL_CALLS['inspect.getfullargspec'] = _getfullargspec
 A.EXTERNAL_CALLS['inspect.getargspec'] = _getfullargspec
 A.EXTERNAL_CALLS['textwrap.dedent'] = _dedent
